@@ -64,10 +64,11 @@ def lookCache {β} (c : List (Text × β)) (env : Text → β) : Text → β := 
   | some (_, v) => v
   | none => env n
 
-/-- the environment as seen through the caches: a cached entry wins over a fresh import -/
+/-- the environment as seen through the caches: a cached entry wins over a fresh import
+    (the message registry is module-level data loaded once, not a cache: it passes through unchanged) -/
 def Env.through (env : Env) (c : Caches) : Env :=
   { env with ud := lookCache c.ud env.ud,
-             src := { callout := lookCache c.callout env.src.callout, src := lookCache c.src env.src.src } }
+             src := { env.src with callout := lookCache c.callout env.src.callout, src := lookCache c.src env.src.src } }
 
 /-- a correct cache update: the modules touched by a decode are stored with the result of importing them -/
 def storeImports {β} (c : List (Text × β)) (env : Text → β) (touched : List Text) : List (Text × β) :=
